@@ -180,3 +180,32 @@ package reg
 //@   on-call Unlock: $effChunk = ite(host.BlobChunk > 0, host.BlobChunk, reg.blobChunkSize)
 //@   on-call Unlock: $limitAt = reg.blobChunkLimit
 //@   ensures requested-minimum-chunk-honoured: err == nil && minSizeStr != "" && $ret(ParseInt, 1) == nil && $ret(ParseInt, 0) > 0 && $ret(ParseInt, 0) <= $limitAt ==> $effChunk >= $ret(ParseInt, 0)
+
+// ---- C10: none left over after deletion ----
+// A manifest that names a subject is deleted only after its entry left the subject's referrer
+// list: when ManifestDelete attempted referrerDelete, the DELETE request is sent only if that
+// attempt succeeded or reported that there was no entry (ErrNotFound).
+//@ ghost $refDelTried bool
+//@ ghost $refDelErr error
+//@ ghost $subjNamed bool
+//@ func (*Reg).ManifestDelete(ctx, r, opts) (err)
+//@   prop C10
+//@   depth 0
+//@   entry-assume !$refDelTried && !$subjNamed
+//@   on-call referrerDelete: $refDelTried = true
+//@   on-call referrerDelete: $refDelErr = result
+//@   on-call GetSubject: $subjNamed = (result1 == nil && result0 != nil && result0.Digest != "")
+//@ callsite (*~/internal/reghttp.Client).Do(ctx, req)
+//@   prop C10
+//@   name reghttp.Do/ManifestDelete
+//@   in ~/scheme/reg
+//@   infunc \)\.ManifestDelete$
+//@   requires referrer-entry-removed-first: $refDelTried ==> $refDelErr == nil || $errIs($refDelErr, errs.ErrNotFound)
+//@   requires removal-attempted-when-the-manifest-names-a-subject: $subjNamed ==> $refDelTried
+// and the referrer entry is removed whenever the manifest at hand names a subject
+//@ callsite (*Reg).referrerDelete(ctx, r, m)
+//@   prop C10
+//@   name referrerDelete/ManifestDelete
+//@   in ~/scheme/reg
+//@   infunc \)\.ManifestDelete$
+//@   requires for-the-manifest-being-deleted: r == old(caller.r) && m == caller.mc.Manifest
